@@ -14,10 +14,16 @@
   * `C18_draws_depth_bounded`    : nesting depth ≤ depthLimit + 2; attained (Truncate quirk).
   * `C18_draws_noEmptyLists`, `C18_draws_disallowNil` and the `C18_remark_*` counterexamples: what the
     two options guarantee, and what they do not.
+  * `C18_draws_mapper_honoured`, `C18_draws_mapper_consumes_no_draw` (+ corollaries): `FieldMaps`
+    (`GenOpts.mapper`, answering by kind) — every scalar position of a mapped kind holds the mapper's value
+    in every message filled within the nesting limit, and no scalar draw is consumed for a mapped kind; for
+    ALL draws and ALL mappers. The well-formedness theorems need the mapper's values to be well-formed
+    themselves (`MapperOK` / `MapperTyped`; trivially true without `FieldMaps`: `rp_mapperOK_none`).
   Proofs: Pulsar/Proofs/Rapid*.lean.
 -/
 import Pulsar.Proofs.RapidTop
 import Pulsar.Proofs.RapidOpts
+import Pulsar.Proofs.RapidMapper
 import Pulsar.Proofs.ReflectCodec
 import Pulsar.Properties.C01
 namespace Pulsar.Rapidproto
@@ -51,7 +57,7 @@ theorem C18_draws_total_generate (S : Schema) (o : GenOpts) (E : List Int) (i : 
     `0 ∈ E`: the enum declares the number 0 (proto3 requires it of the first value); it is what the enum
     fields of the empty messages left behind by the Truncate quirk hold. -/
 theorem C18_draws_wellformed_setFields (S : Schema) (o : GenOpts) (E : List Int) (h0 : (0 : Int) ∈ E)
-    (depth i : Nat) (v0 : Val) (ds : List Draw) (r : Bool × Val) (rest : List Draw) (tr : List Ev)
+    (hmap : MapperOK E o) (depth i : Nat) (v0 : Val) (ds : List Draw) (r : Bool × Val) (rest : List Draw) (tr : List Ev)
     (h : setFields S o E (fuelFor depth) depth i v0 ds = .ok r rest tr)
     (hr : ∀ e ∈ tr, e.inRange = true)
     (hm : msgOK S false (fuelFor depth) i v0 = true) (hu : utf8OK S (fuelFor depth) i v0 = true)
@@ -60,9 +66,9 @@ theorem C18_draws_wellformed_setFields (S : Schema) (o : GenOpts) (E : List Int)
       enumsOK S E (fuelFor depth) i r.2 = true := by
   by_cases hd : depth ≤ Extracted.depthLimit + 2
   · have hN : Extracted.depthLimit + 2 ≤ fuelFor depth + depth := by unfold fuelFor; omega
-    exact ⟨rp_ok_setFields S o E _ _ depth i v0 ds hN hm r rest tr h,
-      rp_utf8_setFields S o E _ _ depth i v0 ds r rest tr h hr hu,
-      rp_enum_setFields S o E h0 _ _ depth i v0 ds r rest tr h hr he⟩
+    exact ⟨rp_ok_setFields S o hmap.typed E _ _ depth i v0 ds hN hm r rest tr h,
+      rp_utf8_setFields S o E hmap.utf8 _ _ depth i v0 ds r rest tr h hr hu,
+      rp_enum_setFields S o E h0 hmap.enum _ _ depth i v0 ds r rest tr h hr he⟩
   · have : fuelFor depth = 0 := by unfold fuelFor; omega
     rw [this] at hm; simp [msgOK] at hm
 
@@ -72,24 +78,24 @@ theorem C18_draws_wellformed_setFields (S : Schema) (o : GenOpts) (E : List Int)
     generator (`Ev.inRange`: enum index < number of declared values, counts within [min,10], integers
     within their type, and `String()` draws valid UTF-8, which is an assumption about rapid). -/
 theorem C18_draws_wellformed (S : Schema) (o : GenOpts) (E : List Int) (h0 : (0 : Int) ∈ E)
-    (i : Nat) (ds : List Draw) (v : Val) (rest : List Draw) (tr : List Ev)
+    (hmap : MapperOK E o) (i : Nat) (ds : List Draw) (v : Val) (rest : List Draw) (tr : List Ev)
     (h : generate S o E i ds = .ok v rest tr) (hr : ∀ e ∈ tr, e.inRange = true) :
     msgOK S false (fuelFor 0) i v = true ∧ utf8OK S (fuelFor 0) i v = true ∧
       enumsOK S E (fuelFor 0) i v = true ∧ unknownOK S (fuelFor 0) i v = true := by
   refine rp_post_generate S o E i ds
     (fun v => msgOK S false (fuelFor 0) i v = true ∧ utf8OK S (fuelFor 0) i v = true ∧
       enumsOK S E (fuelFor 0) i v = true ∧ unknownOK S (fuelFor 0) i v = true) (fun rest0 => ?_) v rest tr h hr
-  refine rp_post_mono (rp_wf_setFields S o E h0 (fuelFor 0) (fuelFor 0) 0 i (emptyMsg S i) rest0
+  refine rp_post_mono (rp_wf_setFields S o E h0 hmap (fuelFor 0) (fuelFor 0) 0 i (emptyMsg S i) rest0
     (by unfold fuelFor; omega)) (fun r tr' hq hin => ?_)
   exact hq hin (msgOK_emptyMsg S false _ i) (rp_utf8OK_emptyMsg S _ i) (rp_enumsOK_emptyMsg S h0 _ i)
     (rp_unknownOK_emptyMsg S _ i)
 
 /-- `msgOK` alone needs no assumption on the draws: stored scalars are truncated to the field's width. -/
-theorem C18_draws_msgOK (S : Schema) (o : GenOpts) (E : List Int) (i : Nat) (ds : List Draw) (v : Val)
+theorem C18_draws_msgOK (S : Schema) (o : GenOpts) (hmap : MapperTyped o) (E : List Int) (i : Nat) (ds : List Draw) (v : Val)
     (rest : List Draw) (tr : List Ev) (h : generate S o E i ds = .ok v rest tr) :
     msgOK S false (fuelFor 0) i v = true := by
   refine rp_post_generate' S o E i ds (fun v => msgOK S false (fuelFor 0) i v = true) (fun rest0 => ?_) v rest tr h
-  exact rp_ok_setFields S o E (fuelFor 0) (fuelFor 0) 0 i (emptyMsg S i) rest0
+  exact rp_ok_setFields S o hmap E (fuelFor 0) (fuelFor 0) 0 i (emptyMsg S i) rest0
     (by unfold fuelFor; omega) (msgOK_emptyMsg S false _ i)
 
 /-! ## Marshalling and round trip (composition with C01) -/
@@ -98,42 +104,43 @@ theorem rp_fuelFor_zero_le : fuelFor 0 ≤ 10000 := by unfold fuelFor Extracted.
 
 /-- A generated message marshals without error or panic, in either marshal mode — for ALL draws (no
     range or UTF-8 assumption: the generated marshaller does not validate strings). -/
-theorem C18_draws_marshal_total (S : Schema) (hS : S.WF = true) (o : GenOpts) (E : List Int)
+theorem C18_draws_marshal_total (S : Schema) (hS : S.WF = true) (o : GenOpts) (hmap : MapperTyped o) (E : List Int)
     (i : Nat) (hi : i < S.msgs.length) (ds : List Draw) (v : Val) (rest : List Draw) (tr : List Ev)
     (h : generate S o E i ds = .ok v rest tr) (mo : MOpts) (hperm : ∀ es, (mo.perm es).Perm es) :
     ∃ bs, implMarshal S mo (fuelFor 0) i v = .ok bs :=
-  C01_marshal_total S hS (fuelFor 0) i v mo hperm hi (C18_draws_msgOK S o E i ds v rest tr h)
+  C01_marshal_total S hS (fuelFor 0) i v mo hperm hi (C18_draws_msgOK S o hmap E i ds v rest tr h)
 
 /-- A message generated from in-range draws marshals and unmarshals back to an equal message (every
     hypothesis of `C01_roundtrip` is discharged: well-typed, valid UTF-8, no unknown fields, depth ≤ 12). -/
 theorem C18_draws_marshal_roundtrip (S : Schema) (hS : S.WF = true) (o : GenOpts) (E : List Int)
-    (h0 : (0 : Int) ∈ E) (i : Nat) (hi : i < S.msgs.length) (ds : List Draw) (v : Val) (rest : List Draw)
+    (h0 : (0 : Int) ∈ E) (hmap : MapperOK E o) (i : Nat) (hi : i < S.msgs.length) (ds : List Draw) (v : Val)
+    (rest : List Draw)
     (tr : List Ev) (h : generate S o E i ds = .ok v rest tr) (hr : ∀ e ∈ tr, e.inRange = true)
     (mo : MOpts) (hperm : ∀ es, (mo.perm es).Perm es) :
     ∃ bs w, implMarshal S mo (fuelFor 0) i v = .ok bs ∧
       (bs.length < 9223372036854775808 →
         implUnmarshal S {} i (emptyMsg S i) bs = .ok w ∧ Equiv S (fuelFor 0) i w v) := by
-  obtain ⟨hm, hu, _, hk⟩ := C18_draws_wellformed S o E h0 i ds v rest tr h hr
+  obtain ⟨hm, hu, _, hk⟩ := C18_draws_wellformed S o E h0 hmap i ds v rest tr h hr
   exact C01_roundtrip S hS (fuelFor 0) i v mo hperm hi hm hu hk rp_fuelFor_zero_le
 
 /-! ## Nesting depth -/
 
 /-- The nesting depth of a generated message is at most `depthLimit + 2` = 12 (not `depthLimit + 1`: a
     message at depth `depthLimit` can keep elements created at depth `depthLimit + 1`, see the example). -/
-theorem C18_draws_depth_bounded (S : Schema) (o : GenOpts) (E : List Int) (i : Nat) (ds : List Draw) (v : Val)
+theorem C18_draws_depth_bounded (S : Schema) (o : GenOpts) (hmap : MapperTyped o) (E : List Int) (i : Nat) (ds : List Draw) (v : Val)
     (rest : List Draw) (tr : List Ev) (h : generate S o E i ds = .ok v rest tr) :
     v.depth ≤ Extracted.depthLimit + 2 :=
-  rc_msgOK_depth_le S (fuelFor 0) i v (C18_draws_msgOK S o E i ds v rest tr h)
+  rc_msgOK_depth_le S (fuelFor 0) i v (C18_draws_msgOK S o hmap E i ds v rest tr h)
 
 /-- … and `setFields` at `depth` on a message of nesting ≤ `depthLimit + 2 - depth` keeps that bound. -/
-theorem C18_draws_depth_bounded_setFields (S : Schema) (o : GenOpts) (E : List Int) (depth i : Nat) (v0 : Val)
+theorem C18_draws_depth_bounded_setFields (S : Schema) (o : GenOpts) (hmap : MapperTyped o) (E : List Int) (depth i : Nat) (v0 : Val)
     (ds : List Draw) (r : Bool × Val) (rest : List Draw) (tr : List Ev)
     (h : setFields S o E (fuelFor depth) depth i v0 ds = .ok r rest tr)
     (hm : msgOK S false (fuelFor depth) i v0 = true) :
     r.2.depth ≤ Extracted.depthLimit + 2 - depth := by
   by_cases hd : depth ≤ Extracted.depthLimit + 2
   · have hN : Extracted.depthLimit + 2 ≤ fuelFor depth + depth := by unfold fuelFor; omega
-    exact rc_msgOK_depth_le S (fuelFor depth) i r.2 (rp_ok_setFields S o E _ _ depth i v0 ds hN hm r rest tr h)
+    exact rc_msgOK_depth_le S (fuelFor depth) i r.2 (rp_ok_setFields S o hmap E _ _ depth i v0 ds hN hm r rest tr h)
   · have : fuelFor depth = 0 := by unfold fuelFor; omega
     rw [this] at hm; simp [msgOK] at hm
 
@@ -332,6 +339,114 @@ theorem C18_remark_oneof_scalar_last_wins :
       v.slots = [.none, .one (.blob false [0x61])] :=
   ⟨_, _, rfl, rfl⟩
 
+/-! ## `FieldMaps`
+
+  `GenOpts.mapper k = some w`: the field mappers answer `w` for every scalar of kind `k`
+  (`genScalarFieldValue` returns it without drawing). No assumption on the draws, none on the mapper. -/
+
+/-- `FieldMaps` is honoured: in every message filled by a `setFields` call within the depth limit — for all
+    schemas, option sets and draw sequences — every scalar position of a kind `k` with `o.mapper k = some w`
+    holds exactly `w` (`mapLocal` / `mapField … true` / `mapVal`, read by `rp_mapVal_iff`): singular scalar
+    fields (always set), the scalar member a oneof group holds, every list element, every map key and every
+    scalar map value. Exception, as for the other options: the messages the Truncate quirk leaves behind
+    (created at depth `depthLimit + 1`, never filled) hold zero values — `mapLocal` claims nothing there. -/
+theorem C18_draws_mapper_honoured (S : Schema) (o : GenOpts) (E : List Int)
+    (i : Nat) (ds : List Draw) (v : Val) (rest : List Draw) (tr : List Ev)
+    (h : generate S o E i ds = .ok v rest tr) :
+    everywhere (mapLocal S o) S (fuelFor 0) 0 i v = true := by
+  refine rp_post_generate' S o E i ds (fun v => everywhere (mapLocal S o) S (fuelFor 0) 0 i v = true)
+    (fun rest0 => ?_) v rest tr h
+  exact rp_post_mono (rp_map_setFields S o E (fuelFor 0) (fuelFor 0) 0 i (emptyMsg S i) rest0)
+    (fun r _ hq => hq (rp_spPre_emptyMsg rp_unk_SpZero S (rp_map_MpOK S o) _ 0 i))
+
+/-- the same for a `setFields` call at any depth on an empty message or on a message that already holds the
+    mapper's values everywhere (the value `Map.Mutable` returns for a repeated key — with a mapped key kind
+    that is every iteration after the first) -/
+theorem C18_draws_mapper_honoured_setFields (S : Schema) (o : GenOpts) (E : List Int)
+    (depth i : Nat) (v0 : Val) (ds : List Draw) (r : Bool × Val) (rest : List Draw) (tr : List Ev)
+    (h : setFields S o E (fuelFor depth) depth i v0 ds = .ok r rest tr)
+    (N : Nat) (hv0 : v0 = emptyMsg S i ∨ everywhere (mapLocal S o) S N depth i v0 = true) :
+    everywhere (mapLocal S o) S N depth i r.2 = true := by
+  refine rp_map_setFields S o E (fuelFor depth) N depth i v0 ds r rest tr h ?_
+  rcases hv0 with rfl | hv0
+  · exact rp_spPre_emptyMsg rp_unk_SpZero S (rp_map_MpOK S o) _ _ i
+  · rw [rp_everywhere_eq] at hv0
+    exact rp_spPre_of_spOK S (rp_map_MpOK S o) hv0
+
+/-- how to read it, for the root message: a singular scalar field of a mapped kind IS the mapper's value
+    (equality of values, not only `Val.beq`) -/
+theorem C18_draws_mapper_honoured_root_singular (S : Schema) (o : GenOpts) (E : List Int)
+    (i : Nat) (ds : List Draw) (v : Val) (rest : List Draw) (tr : List Ev)
+    (h : generate S o E i ds = .ok v rest tr)
+    (f : FieldDesc) (k : Kind) (w x : Val) (hs : f.shape = .singular) (he : f.elem = .scalar k)
+    (hw : o.mapper k = some w) (hx : (f, x) ∈ (S.msg i).fields.zip v.slots) : x = w := by
+  have := C18_draws_mapper_honoured S o E i ds v rest tr h
+  have hf : fuelFor 0 = 11 + 1 := rfl
+  rw [hf] at this
+  simp only [everywhere, Bool.and_eq_true] at this
+  have hl := this.1
+  simp only [mapLocal, Bool.or_eq_true, decide_eq_true_eq] at hl
+  rcases hl with hl | hl
+  · exact absurd hl (by decide)
+  · have := List.all_eq_true.1 hl _ hx
+    simp only [mapField, hs, he, Bool.not_true, Bool.false_or] at this
+    exact (rp_mapVal_iff o k x).1 this w hw
+
+/-- `FieldMaps` consumes no draw: a successful generation consumed exactly the draws `ds` (the trace, in
+    order), and every consumed draw is a `gen-`/`empty` flag, a count, or the scalar draw of a kind for which
+    NO mapper answers (`Ev.unmapped`) — the trace contains no scalar draw event for a mapped kind. At the level
+    of one scalar: `rp_genScalar_mapped` (`genScalar o E k ds = .ok w ds []`). -/
+theorem C18_draws_mapper_consumes_no_draw (S : Schema) (o : GenOpts) (E : List Int)
+    (i : Nat) (ds : List Draw) (v : Val) (rest : List Draw) (tr : List Ev)
+    (h : generate S o E i ds = .ok v rest tr) :
+    ds = tr.map Ev.draw ∧ ∀ e ∈ tr, e.unmapped o E := by
+  have ht := C18_draws_total_generate S o E i ds
+  rw [h] at ht
+  exact ⟨ht.2, rp_tru_generate S o E i ds v rest tr h⟩
+
+/-- the same for `setFields` at any depth, on any message -/
+theorem C18_draws_mapper_consumes_no_draw_setFields (S : Schema) (o : GenOpts) (E : List Int)
+    (depth i : Nat) (v0 : Val) (ds : List Draw) (r : Bool × Val) (rest : List Draw) (tr : List Ev)
+    (h : setFields S o E (fuelFor depth) depth i v0 ds = .ok r rest tr) :
+    ds = tr.map Ev.draw ++ rest ∧ ∀ e ∈ tr, e.unmapped o E := by
+  have ht := C18_draws_total S o E depth i v0 ds
+  rw [h] at ht
+  exact ⟨ht, rp_tru_setFields S o E _ depth i v0 ds r rest tr h⟩
+
+/-- … in terms of generators: when a mapper answers for every kind drawn from the rapid generator of kind
+    `k` (`Int32()` serves int32, sint32 and sfixed32; `String()` only string), no draw of that generator
+    occurs in the trace -/
+theorem C18_draws_mapper_no_draw_of_gen (S : Schema) (o : GenOpts) (E : List Int)
+    (i : Nat) (ds : List Draw) (v : Val) (rest : List Draw) (tr : List Ev)
+    (h : generate S o E i ds = .ok v rest tr)
+    (k : Kind) (hall : ∀ k', scalarGen E k' = scalarGen E k → o.mapper k' ≠ none) :
+    ∀ e ∈ tr, e.gen ≠ scalarGen E k := by
+  intro e he hg
+  rcases (C18_draws_mapper_consumes_no_draw S o E i ds v rest tr h).2 e he with hf | ⟨m, hm⟩ | ⟨k', hn, hk'⟩
+  · exact (rp_scalarGen_ne E k).1 (hg ▸ hf)
+  · exact (rp_scalarGen_ne E k).2 m (hg ▸ hm)
+  · exact hall k' (hk' ▸ hg) hn
+
+/-- instance: a mapped string kind — the trace contains no `String()` draw -/
+theorem C18_draws_mapper_no_string_draw (S : Schema) (o : GenOpts) (E : List Int)
+    (i : Nat) (ds : List Draw) (v : Val) (rest : List Draw) (tr : List Ev)
+    (h : generate S o E i ds = .ok v rest tr) (w : Val) (hw : o.mapper .string = some w) :
+    ∀ e ∈ tr, e.gen ≠ .string := by
+  refine C18_draws_mapper_no_draw_of_gen S o E i ds v rest tr h .string (fun k' hk' => ?_)
+  cases k' <;> simp [scalarGen] at hk'
+  simp [hw]
+
+/-- a mapper answering for every kind: only flags and counts are drawn -/
+theorem C18_draws_mapper_total_only_flags_and_counts (S : Schema) (o : GenOpts) (E : List Int)
+    (i : Nat) (ds : List Draw) (v : Val) (rest : List Draw) (tr : List Ev)
+    (h : generate S o E i ds = .ok v rest tr) (hall : ∀ k, o.mapper k ≠ none) :
+    ∀ e ∈ tr, e.gen = .flag ∨ ∃ m, e.gen = .count m := by
+  intro e he
+  rcases (C18_draws_mapper_consumes_no_draw S o E i ds v rest tr h).2 e he with hf | hc | ⟨k, hn, _⟩
+  · exact Or.inl hf
+  · exact Or.inr hc
+  · exact absurd hn (hall k)
+
 /-! ## Non-vacuity: a schema with every field shape, both options, 34 draws in range -/
 
 namespace DrawsExample
@@ -369,14 +484,14 @@ open DrawsExample in
 example : ∃ v, msgOK exS false (fuelFor 0) 0 v = true ∧ utf8OK exS (fuelFor 0) 0 v = true ∧
     enumsOK exS exE (fuelFor 0) 0 v = true ∧ unknownOK exS (fuelFor 0) 0 v = true := by
   obtain ⟨v, tr, h, hr⟩ := ex_generates
-  exact ⟨v, C18_draws_wellformed exS exO exE (by decide) 0 exDraws v [] tr h hr⟩
+  exact ⟨v, C18_draws_wellformed exS exO exE (by decide) (rp_mapperOK_none _ _ rfl) 0 exDraws v [] tr h hr⟩
 
 open DrawsExample in
 example : ∃ v bs w, implMarshal exS ⟨true, id⟩ (fuelFor 0) 0 v = .ok bs ∧
     (bs.length < 9223372036854775808 →
       implUnmarshal exS {} 0 (emptyMsg exS 0) bs = .ok w ∧ Equiv exS (fuelFor 0) 0 w v) := by
   obtain ⟨v, tr, h, hr⟩ := ex_generates
-  obtain ⟨bs, w, hb⟩ := C18_draws_marshal_roundtrip exS exS_wf exO exE (by decide) 0 (by decide) exDraws v [] tr
+  obtain ⟨bs, w, hb⟩ := C18_draws_marshal_roundtrip exS exS_wf exO exE (by decide) (rp_mapperOK_none _ _ rfl) 0 (by decide) exDraws v [] tr
     h hr ⟨true, id⟩ (fun es => List.Perm.refl es)
   exact ⟨v, bs, w, hb⟩
 
@@ -394,6 +509,113 @@ example : generate exS exO exE 0 (exDraws.take 20) = .stuck 0 .missing := rfl
 open DrawsExample in
 /-- … and for a draw of the wrong type (position 1: 33 of the 34 draws were still unconsumed) -/
 example : generate exS exO exE 0 (.bool true :: .str [] :: exDraws.drop 2) = .stuck 33 .wrongType := rfl
+
+/-! ## Non-vacuity of the `FieldMaps` theorems: string ↦ "m", enum ↦ 4; 19 draws -/
+
+namespace DrawsExample
+
+/-- message 0: string, repeated string, map<string,int32>, map<string,Msg1>, oneof { int32, string }, enum;
+    message 1: repeated int32 -/
+def mapS : Schema := ⟨[
+  ⟨[⟨1, .scalar .string, .singular⟩, ⟨2, .scalar .string, .repeated false⟩, ⟨3, .scalar .int32, .map .string⟩,
+    ⟨4, .message 1, .map .string⟩, ⟨5, .scalar .int32, .oneof 0⟩, ⟨6, .scalar .string, .oneof 0⟩,
+    ⟨7, .scalar .enum, .singular⟩]⟩,
+  ⟨[⟨1, .scalar .int32, .repeated false⟩]⟩]⟩
+
+def mVal : Val := .blob false [0x6d]
+
+def mapO : GenOpts :=
+  { mapper := fun k => match k with | .string => some mVal | .enum => some (.bits 4) | _ => none }
+
+def mapDraws : List Draw :=
+  [.bool true,                                                   -- string: only the gen- draw
+   .bool true, n 2,                                              -- repeated string: only the count
+   .bool true, n 2, n 1, n 2,                                    -- map<string,int32>: 2 values, both at key "m"
+   .bool true, n 2, .bool true, n 1, n 7, .bool true, n 1, n 8,  -- map<string,Msg1>: the 2nd re-fills the 1st
+   .bool true, n 1,                                              -- oneof: int32 member drawn …
+   .bool false,                                                  -- … string member replaces it, no draw
+   .bool true]                                                   -- enum: only the gen- draw
+
+def mapResult : Val :=
+  .msg [mVal, .list false [mVal, mVal], .map false [.entry mVal (.bits 2)],
+        .map false [.entry mVal (.msg [.list false [.bits 7, .bits 8]] [])],
+        .none, .one mVal, .bits 4] []
+
+theorem mapO_ok : MapperOK exE mapO := by
+  refine ⟨fun k w h => ?_, fun w h => ?_, fun w h => ?_⟩
+  · cases k <;> simp [mapO] at h <;> subst h <;> decide
+  · simp [mapO] at h; subst h; simp [mVal, Val.getBlob, utf8Valid]
+  · simp [mapO] at h; subst h; decide
+
+theorem map_generates : ∃ tr, generate mapS mapO exE 0 mapDraws = .ok mapResult [] tr ∧
+    (∀ e ∈ tr, e.inRange = true) :=
+  ⟨_, rfl, by
+    simp [Ev.inRange, Gen.inRange, scalarGen, n, Draw.getInt, Draw.getBlob, mapO, Extracted.listMax]⟩
+
+end DrawsExample
+
+open DrawsExample in
+/-- the mapper is honoured everywhere, no `String()` draw and no enum index draw was consumed, and the
+    message is well-formed (the mapper's values are) -/
+example : everywhere (mapLocal mapS mapO) mapS (fuelFor 0) 0 0 mapResult = true ∧
+    (∃ tr, generate mapS mapO exE 0 mapDraws = .ok mapResult [] tr ∧ mapDraws = tr.map Ev.draw ∧
+      (∀ e ∈ tr, e.unmapped mapO exE) ∧ (∀ e ∈ tr, e.gen ≠ .string) ∧ ∀ e ∈ tr, e.gen ≠ .enumIdx 3) ∧
+    msgOK mapS false (fuelFor 0) 0 mapResult = true ∧ utf8OK mapS (fuelFor 0) 0 mapResult = true ∧
+    enumsOK mapS exE (fuelFor 0) 0 mapResult = true := by
+  obtain ⟨tr, h, hr⟩ := map_generates
+  obtain ⟨hm, hu, he, _⟩ := C18_draws_wellformed mapS mapO exE (by decide) mapO_ok 0 mapDraws _ [] tr h hr
+  have hc := C18_draws_mapper_consumes_no_draw mapS mapO exE 0 mapDraws _ [] tr h
+  refine ⟨C18_draws_mapper_honoured mapS mapO exE 0 mapDraws _ [] tr h,
+    ⟨tr, h, hc.1, hc.2, C18_draws_mapper_no_string_draw mapS mapO exE 0 mapDraws _ [] tr h mVal rfl, ?_⟩,
+    hm, hu, he⟩
+  refine C18_draws_mapper_no_draw_of_gen mapS mapO exE 0 mapDraws _ [] tr h .enum (fun k' hk' => ?_)
+  cases k' <;> simp [scalarGen, exE] at hk'
+  simp [mapO]
+
+namespace DrawsExample
+
+/-- `message Q { repeated Q q = 1; string s = 2; }` -/
+def leftMapS : Schema := ⟨[⟨[⟨1, .message 0, .repeated false⟩, ⟨2, .scalar .string, .singular⟩]⟩]⟩
+
+/-- levels 0–9: `q` gets one element; level 10: `q` count 2 (one element survives the Truncate quirk); then the
+    `gen-s` flags of levels 10 … 0 (`s` is mapped: no `String()` draw) -/
+def leftMapDraws : List Draw :=
+  (List.replicate 10 [.bool true, one]).flatten ++ [.bool true, .num (some 2) none none] ++
+    List.replicate 11 (.bool true)
+
+end DrawsExample
+
+open DrawsExample in
+/-- Remark 7 (`FieldMaps` and the Truncate quirk). The element left behind at depth `depthLimit + 1` is an
+    empty message that was never filled: its string field holds "" and not the mapper's value. `mapLocal`
+    (which stops at the limit) holds everywhere, the same predicate without the depth guard fails. -/
+theorem C18_remark_mapper_leftover :
+    ∃ v tr, generate leftMapS mapO [0] 0 leftMapDraws = .ok v [] tr ∧
+      everywhere (mapLocal leftMapS mapO) leftMapS (fuelFor 0) 0 0 v = true ∧
+      everywhere (fun _ i m => ((leftMapS.msg i).fields.zip m.slots).all (fun p => mapField mapO true p.1 p.2))
+        leftMapS (fuelFor 0) 0 0 v = false :=
+  ⟨_, _, rfl, by decide, by decide⟩
+
+open DrawsExample in
+/-- the singular string field of the root IS the mapper's value -/
+example (v : Val) (rest : List Draw) (tr : List Ev) (h : generate mapS mapO exE 0 mapDraws = .ok v rest tr) :
+    v.slot 0 = mVal := by
+  obtain ⟨tr', h', _⟩ := map_generates
+  rw [h'] at h
+  cases h
+  rfl
+
+open DrawsExample in
+/-- without the mapper the same draws do not fit: the `String()` draw of field 1 is missing at position 1 -/
+example : generate mapS {} exE 0 mapDraws = .stuck 18 .wrongType := rfl
+
+open DrawsExample in
+/-- `mapLocal` is not vacuous: the message generated WITHOUT the mapper from draws that fit violates it -/
+example : ∃ v tr, generate mapS {} exE 0
+      [.bool true, .str [0x78], .bool false, n 0, .bool false, .bool false, .bool true, n 1, .bool false, .str [],
+       .bool true, n 0] = .ok v [] tr ∧
+    everywhere (mapLocal mapS mapO) mapS (fuelFor 0) 0 0 v = false :=
+  ⟨_, _, rfl, by decide⟩
 
 end Pulsar.Rapidproto
 
@@ -416,3 +638,14 @@ end Pulsar.Rapidproto
 #print axioms Pulsar.Rapidproto.C18_remark_disallowNil_at_limit
 #print axioms Pulsar.Rapidproto.C18_remark_oneof_emptied_at_limit
 #print axioms Pulsar.Rapidproto.C18_remark_oneof_scalar_last_wins
+#print axioms Pulsar.Rapidproto.C18_draws_mapper_honoured
+#print axioms Pulsar.Rapidproto.C18_draws_mapper_honoured_setFields
+#print axioms Pulsar.Rapidproto.C18_draws_mapper_honoured_root_singular
+#print axioms Pulsar.Rapidproto.C18_draws_mapper_consumes_no_draw
+#print axioms Pulsar.Rapidproto.C18_draws_mapper_consumes_no_draw_setFields
+#print axioms Pulsar.Rapidproto.C18_draws_mapper_no_draw_of_gen
+#print axioms Pulsar.Rapidproto.C18_draws_mapper_no_string_draw
+#print axioms Pulsar.Rapidproto.C18_draws_mapper_total_only_flags_and_counts
+#print axioms Pulsar.Rapidproto.rp_genScalar_mapped
+#print axioms Pulsar.Rapidproto.rp_val_beq_iff
+#print axioms Pulsar.Rapidproto.C18_remark_mapper_leftover
